@@ -58,6 +58,64 @@ def capacity(F, S):
     return out
 
 
+def root_counted(F, S):
+    """Every update counts the root: the walk ends on the root (cur == rootNodeIndex at every normal exit) and the node
+    the walk ends on has had its count incremented since `cur` last changed. A must-dataflow over the CFG of one flag
+    ("subtreeCount[cur] was incremented and cur has not been reassigned since"); it does not depend on the loop's form."""
+    from ..flow import CFG
+    fn = F.fn(AH + "::UpdateCodeCount", nparams=1)
+    eng = Engine(F, S)
+    ex = eng.analyze(fn, frozenset()) or frozenset()
+    root = ("mem", ("this",), "rootNodeIndex")
+    curs = [f[1] if f[2] == root else f[2] for f in ex if f[0] == "==" and root in (f[1], f[2]) and (f[1][0] == "var" or f[2][0] == "var")]
+    inst = AH + "::UpdateCodeCount#root-counted"
+    req = "the walk ends on the root and the root's count is incremented by every update (it is the total the capacity refusal reads)"
+    if not curs:
+        return [bad("R-SEQ", inst, fn.loc(fn.body), fn.qn, req, "no local is known to equal rootNodeIndex at the normal exit")]
+    cur = curs[0]
+    g = CFG(fn)
+
+    def transfer(b, st):
+        for e in g.blocks[b]["elems"]:
+            nid = e if isinstance(e, int) else e.get("init")
+            nd = fn.n(nid)
+            if nd["k"] == "UnaryOperator" and nd.get("op") in ("++",) or (nd["k"] == "CompoundAssignOperator" and nd.get("op") == "+="):
+                t = fn.term(fn.kids(nid)[0])
+                if t == ("idx", ("mem", ("this",), "subtreeCount"), cur):
+                    st = True
+                elif t == cur:
+                    st = False
+            elif nd["k"] == "BinaryOperator" and nd.get("op") == "=" and fn.term(fn.kids(nid)[0]) == cur:
+                st = False
+            elif nd["k"] == "DeclStmt" and any(("var", d.get("n"), d.get("d")) == cur for d in nd.get("decls", [])):
+                st = False
+        return st
+    IN = {g.entry: False}
+    OUT = {}
+    changed = True
+    rounds = 0
+    while changed and rounds < 50:
+        changed = False
+        rounds += 1
+        for b in g.order:
+            ps = [p for p in g.pred[b] if p in OUT and p not in g.throws]
+            if b != g.entry:
+                if not ps:
+                    continue
+                new_in = all(OUT[p] for p in ps)
+            else:
+                new_in = False
+            o = transfer(b, new_in)
+            if IN.get(b) != new_in or OUT.get(b) != o:
+                IN[b], OUT[b] = new_in, o
+                changed = True
+    exits = [p for p in g.pred[g.exit] if p in OUT and p not in g.throws]
+    if exits and all(OUT[p] for p in exits):
+        return [ok("R-SEQ", inst, fn.loc(fn.body), fn.qn, req, "%s == rootNodeIndex at exit, and subtreeCount[%s] was incremented after its last assignment on every returning path" % (cur[1], cur[1]))]
+    return [bad("R-SEQ", inst, fn.loc(fn.body), fn.qn, req,
+                "on some returning path %s is reassigned after the last increment of subtreeCount[%s]: the node the walk ends on (the root) is not counted" % (cur[1], cur[1]))]
+
+
 def domain_params(fn):
     """Parameters declared with the tree's own index / symbol typedefs (typedef sugar kept by the extractor)."""
     out = []
@@ -319,6 +377,7 @@ def check(F, run, tier):
     inv, notes = class_invariants(F, S, AH)
     run.extra["class_invariants"] = sorted(fmt_fact(f) for f in inv)
     run.add(capacity(F, S))
+    run.add(root_counted(F, S))
     obs, n = verifiers_first(F, S, inv)
     run.add(obs)
     run.floor("argument-derived-subscripts", n, 4)
